@@ -211,6 +211,79 @@ func kernelCases(c *Ctx) {
 		}
 	}
 
+	// Packed-table fast path (buildPackedTable + readPackedSymbols) vs its model (I) and the four canonical
+	// code trees walked one after the other (S): groups the decoder sends down that path, i.e. the maximal
+	// code lengths of green, red, blue, alpha sum to < HuffmanPackedBits = 6 (a one-symbol code counts with
+	// the length it was sent with); green alphabets with and without colour cache, non-literal green symbols
+	for i := 0; i < 200*scale; i++ {
+		maxes := [4]int{1, 1, 1, 1}
+		switch rng.Intn(4) {
+		case 0: // all maxima 1
+		case 1:
+			maxes[rng.Intn(4)] = 2
+		default: // bias to a two-bit green code (literal and non-literal symbols mixed)
+			maxes[0] = 2
+		}
+		alphG := rng.Pick(280, 280+2, 280+64, 280+2048)
+		var sb strings.Builder
+		fmt.Fprintf(&sb, " %d", alphG)
+		var lensAll [4][]int
+		for k := 0; k < 4; k++ {
+			alphabet := 256
+			if k == 0 {
+				alphabet = alphG
+			}
+			lens := make([]int, alphabet)
+			n := rng.Range(1, 1<<maxes[k])
+			var ls []int
+			if n == 1 {
+				ls = []int{rng.Range(1, maxes[k])}
+			} else {
+				ls = randomCompleteLengths(rng, n, maxes[k])
+			}
+			var parts []string
+			for _, l := range ls {
+				for {
+					sym := rng.Intn(alphabet)
+					if k == 0 && rng.Intn(2) == 0 { // length / cache symbols of the green alphabet
+						sym = rng.Range(256, alphabet-1)
+					}
+					if lens[sym] == 0 {
+						lens[sym] = l
+						parts = append(parts, fmt.Sprintf("%d:%d", sym, l))
+						break
+					}
+				}
+			}
+			lensAll[k] = lens
+			fmt.Fprintf(&sb, " %s", strings.Join(parts, ","))
+		}
+		windows := []uint32{0, 0xffffffff, uint32(rng.U64()), uint32(rng.U64())}
+		base := uint32(rng.U64()) &^ 63
+		for k := uint32(0); k < 64; k += uint32(rng.Range(1, 5)) { // walk through the 64 packed slots
+			windows = append(windows, base+k)
+		}
+		for _, w := range windows {
+			data := []byte{byte(w), byte(w >> 8), byte(w >> 16), byte(w >> 24), 0, 0, 0, 0}
+			got := guard(func() string {
+				argb, green, lit, pos, ok := webp.VerifLosslessPackedRead(lensAll[0], lensAll[1], lensAll[2], lensAll[3], data)
+				if !ok {
+					return "ERR"
+				}
+				if lit {
+					return fmt.Sprintf("L %d %d", argb, pos)
+				}
+				return fmt.Sprintf("S %d %d", green, pos)
+			})
+			c.Case(fmt.Sprintf("pkd %d%s", w, sb.String()), got)
+			c.D.Evaluations++
+			c.Count(fmt.Sprintf("kernel:packed-table:maxbits%d", maxes[0]+maxes[1]+maxes[2]+maxes[3]))
+			if strings.HasPrefix(got, "S ") {
+				c.Count("kernel:packed-table:non-literal-green")
+			}
+		}
+	}
+
 	// LosslessReader (64-bit window, byte shifting, 4-byte refills, end-of-stream flag) vs its model, on
 	// scripts that stay inside the data, as the decoder's reads of a valid stream do: ReadBits(0..24),
 	// FillBitWindow + PrefetchBits, SetBitPos(BitPos + k) after a fill
